@@ -32,6 +32,24 @@ def check(run):
     h1 = [h for h in h1 if sum(1 for o in h if o["op"] == "pub") >= 2 and any(o["op"] == "toggle" for o in h) and not any(o["op"] in ("pubrel", "sweep") for o in h)]
     run.log("%d QoS 1 scripts re-using one identifier with an injected failure" % len(h1))
     scns = [inboundlib.scenario(h, [1, 2]) for h in hs] + [inboundlib.scenario(h, [1, 2], dupall=True) for h in h1]
+    # every seventh scenario: the nodes talk through the project's own rpc package (TLS, interceptors) instead of a bare connection
+    for i, s_ in enumerate(scns):
+        if i % 7 == 3:
+            s_["realrpc"] = True
+    # a remote log that answers late (1.5 s) but does store: still exactly one copy per handshake, acknowledged once
+    for q in (1, 2):
+        for m in ("m2", "m1"):
+            ops = [{"op": "connect", "c": 12, "n": 2, "client": "sub2", "ka": 600},
+                   {"op": "sub", "c": 12, "id": 1, "fs": [{"f": ["t", "m1"], "q": 1}, {"f": ["t", "m2"], "q": 1}]},
+                   {"op": "connect", "c": 11, "n": 1, "client": "sub1", "ka": 600},
+                   {"op": "sub", "c": 11, "id": 1, "fs": [{"f": ["t", "m1"], "q": 1}]},
+                   {"op": "connect", "c": 1, "n": 1, "client": "pub-c1", "ka": 600, "auto": "none"},
+                   {"op": "slowlog", "n": 2, "k": 1, "ms": 1500},
+                   {"op": "pub", "c": 1, "t": ["t", m], "p": "slow-" + m, "q": q, "id": 1}]
+            if q == 2:
+                ops.append({"op": "send", "c": 1, "kind": "PUBREL", "id": 1})
+            ops += [{"op": "wait", "ms": 2500}, {"op": "pub", "c": 1, "t": ["t", m], "p": "next-" + m, "q": 1, "id": 2}, {"op": "quiesce"}]
+            scns.append({"nodes": [1, 2], "realrpc": True, "ops": ops})
     hs = hs + h1
     run.log("%d publisher scripts from TLC" % len(scns))
     tpath, crashes = brokerlib.execute(run, scns, "c05", shards=12)
@@ -48,7 +66,7 @@ def check(run):
         "rule": "scenario = TLC-generated publisher script (exhaustive depth %d over PUBLISH q0/q1/q2 x ids {1,2} x 2 messages, PUBREL, handshake "
                 "time-out, toggling failure of node 1's / node 2's log append or of the RPC towards them; simulated depth 7 with 4 messages; plus every QoS 2 "
                 "script of depth %d on one two-destination message with >= 2 PUBRELs and >= 1 injected failure), "
-                "on two real nodes with one subscriber each; non-trivial = contains an injected failure" % (4 if thorough else 3, 6 if thorough else 5),
+                "on two real nodes with one subscriber each; one scenario in seven and four slow-remote-log scenarios (an append that takes 1.5 s) run over the project's own rpc package; non-trivial = contains an injected failure" % (4 if thorough else 3, 6 if thorough else 5),
         "events_validated": nev, "trace_spec_states": tstates, "rejections": len(rejected),
         "samples": [hs[0], hs[len(hs) // 2], {"scenario": scns[-1]}],
     }, ["a repeated QoS 2 PUBLISH on an open handshake may end the session or re-send PUBREC; an unknown PUBREL may be ignored; neither may forward",
